@@ -150,7 +150,8 @@ void density_sketch<T, K, A>::compact_level(unsigned height) {
     for (unsigned j = 0; j < i; ++j) {
       delta += (bits[j] ? 1 : -1) * kernel_(level[i], level[j]);
     }
-    bits[i] = delta < 0;
+    // a tie takes the sign opposite to the previous point's, so that a level never loses all of its points
+    bits[i] = delta < 0 || (delta == 0 && !bits[i - 1]);
   }
   for (unsigned i = 0; i < level.size(); ++i) {
     if (bits[i]) {
